@@ -8,7 +8,7 @@ from __future__ import annotations
 import ast
 from typing import Dict, List, Optional, Set, Tuple
 
-from ..astutil import Origins, call_name, const_num, names_in
+from ..astutil import Origins, call_name, const_num, expand_locals, names_in
 from ..cfg import Conditions, ReachingDefs
 from ..loader import FuncInfo, Program, dotted, enclosing_stmt, parent, short, walk_own
 from ..report import BAD, INFO, OK, UNDET, Instance
@@ -88,7 +88,11 @@ def point_transform(prog: Program) -> List[Instance]:
                         "source geobox pix2wld, then the CRS transformer, then destination geobox wld2pix" if ok
                         else "point transform does not go source.pix2wld -> transformer -> destination.wld2pix", call.where()))
     clips = [n for n in walk_own(call.node) if isinstance(n, ast.Call) and call_name(n) == "clip"]
-    okc = bool(clips) and bool(trc) and all(_stmt_index(call, c) < _stmt_index(call, trc[0]) for c in clips) and (not p2w or all(_stmt_index(call, c) > _stmt_index(call, p2w[0]) for c in clips))
+    if not clips:
+        # the clamp may live in a private helper called from here: the call that leads to it marks its position
+        clips = [n for n in walk_own(call.node) if isinstance(n, ast.Call) and n not in trc and n not in p2w and n not in w2p
+                 and any(g is not call and isinstance(x, ast.Call) and call_name(x) == "clip" for g, x in prog.closure_nodes(call, n))]
+    okc = bool(clips) and bool(trc) and all(_stmt_index(call, c) < _stmt_index(call, trc[0]) for c in clips) and (not p2w or all(_stmt_index(call, c) > _stmt_index(call, p2w[0]) or any(x is p2w[0] for x in ast.walk(c)) for c in clips))
     out.append(Instance("R-GUARDSEQ", f"{call.qual}#clamp-before-transform", OK if okc else BAD,
                         "geographic coordinates are clamped after pix2wld and before the CRS transformer" if okc else "lon/lat clamp does not sit between pix2wld and the CRS transformer", call.where()))
     swapped = False
@@ -213,7 +217,7 @@ def tile_query(prog: Program) -> List[Instance]:
                 neg = isinstance(t, ast.UnaryOp) and isinstance(t.op, ast.Not)
                 c = t.operand if neg else t
                 if isinstance(c, ast.Call) and call_name(c) in ("disjoint", "intersects"):
-                    uses_tile = tile_var is not None and any(isinstance(x, ast.Attribute) and x.attr == "extent" and short(x.value) == tile_var for a in c.args for x in ast.walk(a))
+                    uses_tile = any(isinstance(x, ast.Attribute) and x.attr == "extent" and ((tile_var is not None and short(x.value) == tile_var) or short(x.value) == f"{me}[{idx}]") for a in c.args for x in ast.walk(a))
                     pol_ok = (call_name(c) == "disjoint" and neg) or (call_name(c) == "intersects" and not neg)
                     yields_idx = any(isinstance(x, (ast.Yield,)) and x.value is not None and short(x.value) == idx for s in st.body for x in ast.walk(s))
                     ok = uses_tile and pol_ok and yields_idx
@@ -222,13 +226,18 @@ def tile_query(prog: Program) -> List[Instance]:
                         "a candidate index is yielded iff the query is not disjoint from the extent of the tile at that index" if ok else f"tile filter broken ({detail})", f.where()))
     # candidates come from the bounding box of the query polygon that was reconciled
     rb = [n for n in walk_own(f.node) if isinstance(n, ast.Call) and call_name(n) == "range_from_bbox"]
+    condq = Conditions(f.body)
+    # a CRS-less bounding box is a box in the pixel plane of the base geobox: nothing to project, no polygon to be empty
+    rb = [n for n in rb if not any(p and isinstance(e, ast.Compare) and isinstance(e.ops[0], ast.Is) and isinstance(e.left, ast.Attribute) and e.left.attr == "crs" and isinstance(e.comparators[0], ast.Constant) and e.comparators[0].value is None
+                                   for e, p in conds_at(condq, enclosing_stmt(n)))]
     if rb:
-        condq = Conditions(f.body)
         okE = any(isinstance(e, ast.Attribute) and e.attr == "is_empty" and not p for e, p in conds_at(condq, enclosing_stmt(rb[0])))
         out.append(Instance("R-EMPTY", f"{f.qual}#empty-query", OK if okE else BAD,
                             "the tile range is computed only for a non-empty query" if okE else
                             "the bounds of the query feed range_from_bbox without an is_empty test: an empty geometry has NaN bounds and the query raises instead of yielding nothing", f.where(rb[0])))
     ok = len(rb) == 1 and isinstance(rb[0].args[0], ast.Attribute) and rb[0].args[0].attr == "boundingbox"
+    if not rb:
+        out.append(Instance("R-GUARDSEQ", f"{f.qual}#candidates-from-bbox", UNDET, "no range_from_bbox call on a world-space query in GeoboxTiles.tiles", f.where()))
     if ok:
         # ... of the polygon *after* it was brought into the grid's CRS
         recv = rb[0].args[0].value
@@ -239,7 +248,8 @@ def tile_query(prog: Program) -> List[Instance]:
             # itself (through GeoBox.project, whose densification R-DENSIFY checks)
             rfb0 = prog.maybe_func("geobox:GeoboxTiles.range_from_bbox")
             ok = rfb0 is not None and any(isinstance(x, ast.If) and any(isinstance(a, ast.Attribute) and a.attr == "crs" for a in ast.walk(x.test)) and any(isinstance(c, ast.Call) and call_name(c) == "project" for y in x.body for c in ast.walk(y)) for x in walk_own(rfb0.node))
-    out.append(Instance("R-GUARDSEQ", f"{f.qual}#candidates-from-bbox", OK if ok else BAD, "candidates come from the bounding box of the query, brought into the grid's CRS with densification (here or inside range_from_bbox)" if ok else "candidate tile range is not derived from the bounding box of the re-projected query (a box projected by its corners misses the bulge of curved edges)", f.where()))
+    if rb:
+      out.append(Instance("R-GUARDSEQ", f"{f.qual}#candidates-from-bbox", OK if ok else BAD, "candidates come from the bounding box of the query, brought into the grid's CRS with densification (here or inside range_from_bbox)" if ok else "candidate tile range is not derived from the bounding box of the re-projected query (a box projected by its corners misses the bulge of curved edges)", f.where()))
     # pixel -> tile lookup is delegated to the tiling (regular or variable), never re-derived
     rfb = prog.func("geobox:GeoboxTiles.range_from_bbox")
     nloc = sum(1 for n in walk_own(rfb.node) if isinstance(n, ast.Call) and call_name(n) == "locate")
@@ -264,6 +274,9 @@ def tile_query(prog: Program) -> List[Instance]:
                     if isinstance(x, ast.If) and any(isinstance(y, (ast.Continue, ast.Return)) for y in x.body) and names_in(x.test) & shape_names:
                         guarded = True
                 guarded = guarded or any(names_in(e) & shape_names for e, _p in conds_at(gcond, st))
+            if loop is None:
+                out.append(Instance("R-GUARDSEQ", f"{g.qual}#skip-outside-source", UNDET, "the source tiling is not queried from inside a for-loop over destination tiles (comprehension / helper): the skip test is not looked for", g.where(n)))
+                continue
             out.append(Instance("R-GUARDSEQ", f"{g.qual}#skip-outside-source", OK if guarded else BAD,
                                 "destination tiles whose mapped box lies outside the source are skipped before the (clamping) tile query" if guarded else
                                 f"`{short(n, 40)}` is asked for every destination tile: range_from_bbox clamps a box outside the raster to the nearest edge tile, so disjoint rasters yield a full dependency graph instead of an empty one", g.where(n)))
@@ -288,7 +301,10 @@ def tile_query(prog: Program) -> List[Instance]:
             if isinstance(n, ast.Assign) and isinstance(n.targets[0], ast.Subscript) and short(n.targets[0].slice) == idx:
                 store_ok = True
         okl = chain_ok and q_ok and store_ok
-    out.append(Instance("R-GUARDSEQ", f"{g.qual}#mapped-box", OK if okl else BAD,
+    if not any(isinstance(n, ast.For) for n in walk_own(g.node)):
+        out.append(Instance("R-GUARDSEQ", f"{g.qual}#mapped-box", UNDET, "no for-loop over destination tiles in the linear path (comprehension / helper)", g.where()))
+    else:
+      out.append(Instance("R-GUARDSEQ", f"{g.qual}#mapped-box", OK if okl else BAD,
                         "per destination tile: its own pixel box, mapped by A, rounded outwards, queried on the source tiling, stored under the same index" if okl
                         else "linear dependency path no longer maps each tile's own box through A, rounds it and stores the source tiles under the same index", g.where()))
     # general path: per destination tile query src with that tile's extent
@@ -311,7 +327,11 @@ def tile_query(prog: Program) -> List[Instance]:
                         own_tile = any(isinstance(y, ast.Subscript) and short(y.value) == me and short(y.slice) == idx for y in cl)
                         via_extent = any(isinstance(y, ast.Attribute) and y.attr in ("extent", "footprint") for y in cl) or any(isinstance(y, ast.Call) and call_name(y) == "footprint" for y in cl)
                         okg = okg or (own_tile and via_extent)
-    out.append(Instance("R-GUARDSEQ", f"{gi.qual}#per-tile-extent", OK if okg else BAD,
+    stores_in_loop = any(isinstance(st, ast.Assign) and isinstance(st.targets[0], ast.Subscript) for lp in walk_own(gi.node) if isinstance(lp, ast.For) for st in ast.walk(lp))
+    if not okg and not stores_in_loop:
+        out.append(Instance("R-GUARDSEQ", f"{gi.qual}#per-tile-extent", UNDET, "the general path does not fill its result in a for-loop of grid_intersect itself (comprehension / helper)", gi.where()))
+    else:
+      out.append(Instance("R-GUARDSEQ", f"{gi.qual}#per-tile-extent", OK if okg else BAD,
                         "dependencies of tile idx = source tiles overlapping the extent of tile idx" if okg else "general dependency path does not query the source tiling with each destination tile's own extent", gi.where()))
     # _check_linear: A = snap_affine(~src * dst)
     c = prog.func("geobox:GeoboxTiles._check_linear")
@@ -319,7 +339,8 @@ def tile_query(prog: Program) -> List[Instance]:
     okd = False
     for n in walk_own(c.node):
         if isinstance(n, ast.BinOp) and isinstance(n.op, ast.Mult) and isinstance(n.left, ast.UnaryOp) and isinstance(n.left.op, ast.Invert):
-            okd = names_in(n.left) == {srcp} and names_in(n.right) == {c.self_name}
+            nx_ = expand_locals(c.node, n, keep={srcp, c.self_name or "self"})
+            okd = names_in(nx_.left) == {srcp} and names_in(nx_.right) == {c.self_name}
     for n in walk_own(c.node):
         if isinstance(n, ast.Call) and call_name(n) == "snap_affine":
             relaxed = [k for k in n.keywords if k.arg == "tol"] + list(n.args[3:4])
@@ -447,7 +468,7 @@ def block_assembler(prog: Program) -> List[Instance]:
     a0, a1 = inter[0].args[:2]
     # which argument is the block's region (derived from the tiling indexed by the loop key)?
     def is_block_region(x: ast.AST) -> bool:
-        return any(isinstance(v, ast.Subscript) and "_tiles" in short(v.value) for nm in names_in(x) for _, v in org.defs.get(nm, []))
+        return (isinstance(x, ast.Subscript) and "_tiles" in short(x.value)) or any(isinstance(v, ast.Subscript) and "_tiles" in short(v.value) for nm in names_in(x) for _, v in org.defs.get(nm, []))
     block_first = is_block_region(a0) and not is_block_region(a1)
     blk_part, win_part = (part_a, part_b) if block_first else (part_b, part_a)
     cp = [n for n in walk_own(e.node) if isinstance(n, ast.Call) and call_name(n) == "copyto" and len(n.args) >= 2]
@@ -773,7 +794,9 @@ def locate_siblings(prog: Program) -> List[Instance]:
         b = Beliefs(f)
         tests = set()
         raises = False
-        for n in walk_own(f.node):
+        for g, n in prog.closure_nodes(f):
+            if g is not f:
+                b = Beliefs(g)
             if isinstance(n, ast.If) and any(isinstance(x, ast.Raise) for x in n.body):
                 raises = any("IndexError" in short(x.exc) for x in n.body if isinstance(x, ast.Raise))
                 for c in ast.walk(n.test):
@@ -789,7 +812,10 @@ def locate_siblings(prog: Program) -> List[Instance]:
     ta, ra = guard(a)
     tb, rb = guard(b2)
     want = {("Y", "Lt", "0", "Y"), ("Y", "GtE", "extent", "Y"), ("X", "Lt", "0", "X"), ("X", "GtE", "extent", "X")}
-    ok = ta == tb == want and ra and rb
+    if not ta and not tb:
+        return [Instance("R-SIBLING", "roi:Tiles.locate~VariableSizedTiles.locate#range-guard", UNDET, "no range test that raises found in either implementation or its private helpers", a.where())]
+    named = not any("?" in t for t in ta | tb)
+    ok = ta == tb and ra and rb and (ta == want or not named)
     out.append(Instance("R-SIBLING", "roi:Tiles.locate~VariableSizedTiles.locate#range-guard", OK if ok else BAD,
                         "both reject pixels with coordinate < 0 or >= extent of the same axis with IndexError" if ok else f"range guards differ or are incomplete: {sorted(ta)} vs {sorted(tb)}", a.where()))
     return out
@@ -901,7 +927,11 @@ def gridspec_polygon_filter(prog: Program) -> List[Instance]:
                                 ext += [y for y in ast.walk(x.value) if isinstance(y, ast.Attribute) and y.attr == "extent"]
                 if ext and names_in(ext[0].value) & yielded:
                     ok = True
-        notouch = any(isinstance(e, ast.Call) and call_name(e) == "touches" and not p for e, p in conds_at(cond, st)) or any(isinstance(e, ast.Call) and call_name(e) in ("overlaps", "relate_pattern") and p for e, p in conds_at(cond, st))
+        # the two-argument module function geom.intersects(a, b) is `a.intersects(b) and not a.touches(b)`: read it, do not assume it
+        gi_ = prog.maybe_func("geom:intersects")
+        gi_excludes = gi_ is not None and any(isinstance(r, ast.Return) and any(isinstance(u, ast.UnaryOp) and isinstance(u.op, ast.Not) and isinstance(u.operand, ast.Call) and call_name(u.operand) == "touches" for u in ast.walk(r)) for r in walk_own(gi_.node))
+        via_fn = gi_excludes and any(p and isinstance(e, ast.Call) and call_name(e) == "intersects" and len(e.args) == 2 for e, p in conds_at(cond, st))
+        notouch = via_fn or any(isinstance(e, ast.Call) and call_name(e) == "touches" and not p for e, p in conds_at(cond, st)) or any(isinstance(e, ast.Call) and call_name(e) in ("overlaps", "relate_pattern") and p for e, p in conds_at(cond, st))
         out.append(Instance("R-GUARDSEQ", f"{f.qual}#yield-excludes-touch:{k}", OK if notouch else BAD,
                             "edge/corner-only contact is excluded (not touches), like the bounding-box query does with its tolerance" if notouch else
                             "a tile that only touches the query along an edge or at a corner passes the filter (`not disjoint` / `intersects` are true for boundary contact): the statement excludes edge contacts", f.where(y)))
